@@ -19,6 +19,10 @@ prop('T00',   # framework self-check property (not in MANIFEST): Ite::new only
 
 prop('T01', units=['ff'], assumptions=[A_VERUS, A_EXTRACT], not_covered=[], replay='ff')
 
+prop('T02', units=['lru'], assumptions=[A_VERUS, A_EXTRACT], not_covered=[], replay=None)
+
+prop('T03', units=['cache'], assumptions=[A_VERUS, A_EXTRACT], not_covered=[], replay=None)
+
 
 def proved_includes(root):
     """set of inc/*.rs files that some unit template includes non-assumed"""
